@@ -30,25 +30,33 @@ func main() {
 	lib.Main(
 		&lib.Prop{ID: "C03", Part: "state", Level: "exploration", NCases: n(60, 3000), Assumptions: opAssume,
 			Rule: "[mutation-heavy] " + scriptRule,
-			Run:  func(c *lib.Ctx) { runScript(c, flavour{prop: "C03", mutations: 12, timers: 2, watermarks: 6, bigNamespace: true}) }},
+			Run: func(c *lib.Ctx) {
+				runScript(c, flavour{prop: "C03", mutations: 12, timers: 2, watermarks: 6, bigNamespace: true})
+			}},
 		&lib.Prop{ID: "C10", Part: "timers", Level: "exploration", NCases: n(60, 3000), Assumptions: opAssume,
 			Rule: "[timer-heavy, timer cache tuned to {1 B, 40 B, 40 B/group, 200 B/group, 1 GB} through the verif hook, identical re-registration 1..50 times] " + scriptRule,
-			Run:  func(c *lib.Ctx) { runScript(c, flavour{prop: "C10", mutations: 3, timers: 12, watermarks: 22, tinyCache: true, reRegister: true}) }},
+			Run: func(c *lib.Ctx) {
+				runScript(c, flavour{prop: "C10", mutations: 3, timers: 12, watermarks: 22, tinyCache: true, reRegister: true})
+			}},
 		&lib.Prop{ID: "C11", Part: "operator-watermarks", Level: "exploration", NCases: n(50, 2500), Assumptions: opAssume,
 			Rule: "[2..4 senders, watermark-heavy] " + scriptRule,
-			Run:  func(c *lib.Ctx) { runScript(c, flavour{prop: "C11", mutations: 3, timers: 8, watermarks: 40, manySenders: true, tinyCache: true}) }},
+			Run: func(c *lib.Ctx) {
+				runScript(c, flavour{prop: "C11", mutations: 3, timers: 8, watermarks: 40, manySenders: true, tinyCache: true})
+			}},
 		&lib.Prop{ID: "C02", Part: "alignment", Level: "exploration", NCases: n(80, 4000),
 			Assumptions: append([]string{"the job never starts checkpoint N+1 before N completed, so barriers of two checkpoints never overlap", "the verif hook in alignSender only reports that a sender parked / was released; a sender that is NOT held is detected by its HandleEvent returning before the last barrier"}, opAssume[1:]...),
-			Rule: "[2..4 senders; 4 of 5 checkpoints are concurrent: after its barrier a sender immediately tries to deliver its next event (several senders with keyed events, or one sender with a watermark whose timers are due) from its own goroutine, exactly like the embedded client] " + scriptRule + "; extra oracle: an aligned sender must park (hook) and not return until the last barrier was handled; the acknowledgement must come after exactly the handler invocations of the pre-barrier events (cut position); the DKV checkpoint named in the ack read back == shadow frozen at the ack; released events reach the handler after the cut in any order among themselves",
-			Run:  func(c *lib.Ctx) { runScript(c, flavour{prop: "C02", mutations: 8, timers: 6, watermarks: 14, manySenders: true, concurrent: true}) }},
+			Rule:        "[2..4 senders; 4 of 5 checkpoints are concurrent: after its barrier a sender immediately tries to deliver its next event (several senders with keyed events, or one sender with a watermark whose timers are due) from its own goroutine, exactly like the embedded client] " + scriptRule + "; extra oracle: an aligned sender must park (hook) and not return until the last barrier was handled; the acknowledgement must come after exactly the handler invocations of the pre-barrier events (cut position); the DKV checkpoint named in the ack read back == shadow frozen at the ack; released events reach the handler after the cut in any order among themselves",
+			Run: func(c *lib.Ctx) {
+				runScript(c, flavour{prop: "C02", mutations: 8, timers: 6, watermarks: 14, manySenders: true, concurrent: true})
+			}},
 		&lib.Prop{ID: "C06", Part: "assign-ranges", Level: "exploration", NCases: n(300, 20000), Run: c06AssignRanges,
 			Rule: "partitioning.AssignRanges(to, from) for key-group counts {4,7,12,256,1000,65535}, 1..6 old and 1..6 new operators, EVERY permutation of the recorded old ranges, compared with the brute-force overlap relation; non-trivial = >=2 old operators; distinct by (groups, m, n)"},
 		&lib.Prop{ID: "C06", Part: "rescale", Level: "exploration", NCases: n(40, 2500), Run: c06Rescale,
 			Assumptions: append([]string{"no source runners: the harness routes each key to the operator owning its group (routing itself is C05/C04)", "operator count <= key-group count (an assembly with an empty range cannot be deployed)"}, opAssume[1:]...),
-			Rule: "chains M->N(->P->Q) of real operator assemblies (M,N in 1..4, thorough up to 6; key groups {4,7,256,1000}; 1..2 senders; dkv tuned so pre-checkpoint state is in memtables only / flushed / compacted): history of keyed events with programs + watermarks broadcast to every operator, job checkpoint (every operator acknowledges), all operators killed, N fresh operators (new ids, sometimes survivor ids = same directory) deployed with exactly the checkpoint assignment jobs.Assembly.Deploy computes (AssignRanges over the acknowledgements in a SEEDED ORDER), every key touched once after the restore, more history, next job checkpoint; oracles: AssignRanges vs brute-force overlap; handler-side KeyStates == shadow (lost or foreign state), per-operator sequential model of handler invocations incl. timers (lost / foreign / duplicated timers), each operator's next checkpoint read back and compared with shadow and pending timers restricted to its key groups; non-trivial = always; distinct by (chain, groups, ops) hash"},
+			Rule:        "chains M->N(->P->Q) of real operator assemblies (M,N in 1..4, thorough up to 6; key groups {4,7,256,1000}; 1..2 senders; dkv tuned so pre-checkpoint state is in memtables only / flushed / compacted): history of keyed events with programs + watermarks broadcast to every operator, job checkpoint (every operator acknowledges), all operators killed, N fresh operators (new ids, sometimes survivor ids = same directory) deployed with exactly the checkpoint assignment jobs.Assembly.Deploy computes (AssignRanges over the acknowledgements in a SEEDED ORDER), every key touched once after the restore, more history, next job checkpoint; oracles: AssignRanges vs brute-force overlap; handler-side KeyStates == shadow (lost or foreign state), per-operator sequential model of handler invocations incl. timers (lost / foreign / duplicated timers), each operator's next checkpoint read back and compared with shadow and pending timers restricted to its key groups; non-trivial = always; distinct by (chain, groups, ops) hash"},
 		&lib.Prop{ID: "C09", Part: "operators", Level: "exploration", NCases: n(30, 1500), Run: c09Operators,
 			Assumptions: append([]string{"neighbour NeedsTable answers follow a seeded policy per ordered operator pair: truth / error / delay / unreachable", "file existence is checked on the local directory storage (os.Stat)"}, opAssume[1:]...),
-			Rule: "M (1..3) operators -> N (2..4) operators rescale so that tables are shared, then 2..5 rounds of history + job checkpoint + retention update to the newest checkpoint + waiting for compactions + forced GC, with every neighbour's NeedsTable answering by policy (truth/error/delay/unreachable in every combination over the ordered pairs); after every round every file referenced by each live operator's saved checkpoints document (WALs and tables of retained checkpoints) or by its live level set (verif accessor) must exist on disk, and every key is touched so the handler-side state oracle reads through the shared tables; non-trivial = always; distinct by ops hash"},
+			Rule:        "M (1..3) operators -> N (2..4) operators rescale so that tables are shared, then 2..5 rounds of history + job checkpoint + retention update to the newest checkpoint + waiting for compactions + forced GC, with every neighbour's NeedsTable answering by policy (truth/error/delay/unreachable in every combination over the ordered pairs); after every round every file referenced by each live operator's saved checkpoints document (WALs and tables of retained checkpoints) or by its live level set (verif accessor) must exist on disk, and every key is touched so the handler-side state oracle reads through the shared tables; non-trivial = always; distinct by ops hash"},
 	)
 }
 
